@@ -50,6 +50,14 @@ claimed["C10"] = dict(
    text="Deductive proof, for each of the eight functions avg, count, delta, derive, last, max, min, sum, that the processor's state is exactly the left fold of its function over the values (and timestamps) contributed so far (constructor = first point, Add = one more point, ghost logs maintained by contract-level ghost assignments), and that Flush returns that function of exactly the contributed values (derive: only with two distinct timestamps; same uninterpreted float operations as the code, so exact for IEEE arithmetic). For the bucket structure: AddOrCreate contributes the point exactly once to the bucket (quantized, key) if it exists, creates it with exactly this point if the bucket start is newer than now-wait, and otherwise counts it too old and creates nothing; every other bucket and processor is untouched; the timestamp list stays sorted and every listed timestamp has a bucket.",
    note="Aggregator.Flush (emission order, one line per bucket, deletion of closed buckets), Aggregator.run (quantisation, tick handling), stdev and percentiles are not yet under contract, so 'emitted exactly once, in ascending order' is NOT decided yet; the no-duplicates/completeness/processor-distinctness parts of the bucket invariant are assumed (not proved preserved on the path that re-sorts the list); sort.Sort, the clock (a.now) and the processor constructor stored in the aggregator are assumed contracts; floats are uninterpreted.",
    ref="7 C10")
+claimed["C12"] = dict(
+   text="Deductive proof that Plain.Handle hands the dispatcher exactly the scanner's tokens, in order, each once (loop invariant over the ghost call log; for every stream length), returns the scanner's error and never counts a protocol reject -- relative to the standard library's bufio.Scanner/ScanLines contract (lines independent of segmentation), which is assumed and audited by a bounded stand-in feeding the real handler every cut position of a corpus through a chunking reader.",
+   note="Chunk invariance itself is bufio's property (assumed; bounded audit only: 6 streams x cut positions/1-byte reads/data+EOF); UDP (handleData), AMQP (ReadLine, 4 KiB) and TimeoutConn.Read are not yet under contract.",
+   ref="7 C12")
+claimed["C13"] = dict(
+   text="Deductive proof of panic-freedom of Pickle.Handle and checkProtocol for every byte stream (every type assertion is guarded, every index is within the checked lengths, the chunk loop stays within its buffer for every payload length including 0), plus a bounded stand-in for the equivalence with text input: frames produced by CPython's pickle module (protocols 0-4) are fed to the real handler under several segmentations and compared with the equivalent text lines.",
+   note="Which Go types the pinned ogórek produces for which CPython opcodes is the library's contract; the equivalence clause is decided by the bounded stand-in only (40 frames x 4 segmentations, not counted as proved). Two open known findings inside ogórek are listed in known_findings.json (protocol-0 non-ASCII names, negative BININT values).",
+   ref="7 C13")
 reasons = {
  "C08": "crash-point quantifier needs a crash semantics for the file system, a recovery function and a crash invariant at every intermediate state (crash Hoare logic); no contract within reach of the VC generator written here expresses it (DESIGN.md section 11)",
 }
